@@ -1239,11 +1239,23 @@ package ion
 //@ modifies nothing
 //@ safe[C06,C09]
 
+// The imports are consulted first, in declaration order: the local index answers only when
+// no import has the text ("the lowest ID carrying that text": imports occupy the lower IDs).
 //@ func (*lst).FindByName
+//@ split returns
 //@ requires lstWF(t)
-//@ invariant loop0 [idx_ int] idx_ >= -1 && idx_ < len(t.imports)
+//@ counts SymbolTable.FindByName
+//@ invariant loop0 [idx_ int] idx_ >= -1 && idx_ < len(t.imports) && vcCalls("SymbolTable.FindByName") == idx_+1
+//@ invariant[C09] loop0 [idx_ int] forall j int :: 0 <= j && j <= idx_ ==> !specFindOK(t.imports[j], s)
 //@ modifies nothing
 //@ ensures[C09] !result1 ==> !vcHasKey(t.index, s)
+//@ ensures[C09] forall j int :: !result1 && 0 <= j && j < len(t.imports) ==> !specFindOK(t.imports[j], s)
+//@ ensures[C09] result1 && vcCalls("SymbolTable.FindByName") == len(t.imports) && !specFindOK(t.imports[len(t.imports)-1], s) ==>
+//@    vcHasKey(t.index, s) && result0 == t.index[s]
+//@ ensures[C09] forall j int :: result1 && vcCalls("SymbolTable.FindByName") == len(t.imports) && !specFindOK(t.imports[len(t.imports)-1], s) && 0 <= j && j < len(t.imports) ==>
+//@    !specFindOK(t.imports[j], s)
+//@ ensures[C09] result1 && (vcCalls("SymbolTable.FindByName") < len(t.imports) || specFindOK(t.imports[len(t.imports)-1], s)) ==>
+//@    specFindOK(t.imports[vcCalls("SymbolTable.FindByName")-1], s) && result0 == t.offsets[vcCalls("SymbolTable.FindByName")-1]+specFindID(t.imports[vcCalls("SymbolTable.FindByName")-1], s)
 //@ safe[C06,C09]
 
 //@ func (*symbolTableBuilder).Add
@@ -1799,7 +1811,7 @@ package ion
 //@ invariant loop0 true
 //@ atcall[C05,C10] Catalog.FindExact :: Catalog, string, int :: [name string, version int] a0 == cat && a1 == name && a2 == version && version >= 1 && name != "" && name != "$ion"
 //@ atcall[C05,C10] Catalog.FindLatest :: Catalog, string :: [name string, version int] a0 == cat && a1 == name && cat.FindExact(name, version) == nil
-//@ atcall[C05,C10] SymbolTable.MaxID :: SymbolTable :: [imp SharedSymbolTable, version int, maxID int64] maxID < 0 && a0 == imp && imp != nil && imp.Version() == version
+//@ atcall[C05,C09,C10] SymbolTable.MaxID :: SymbolTable :: [imp SharedSymbolTable, version int, maxID int64] maxID < 0 && a0 == imp && imp != nil && imp.Version() == version
 //@ atcall[C05,C10] SharedSymbolTable.Adjust :: SharedSymbolTable, uint64 :: [imp SharedSymbolTable, version int, maxID int64] a0 == imp && a1 == uint64(maxID) && (maxID >= 0 || imp.Version() == version)
 //@ ensures[C10] err == nil && result != nil && cat == nil ==> vcIsBogusSST(result)
 //@ ensures[C10] err == nil && result != nil && cat == nil ==> vcAsBogusSST(result).version >= 1
